@@ -525,6 +525,8 @@ def clip_certificate(fi, a):
             continue
         args = st.value.args
         for x, y in ((args[0], args[1]), (args[1], args[0])):
+            if isinstance(y, ast.Name):
+                y = df.resolve_value(fi.node, y)  # `n = A.shape[-1]` hoisted
             if isinstance(x, ast.Name) and root(x.id) in params and nospace(y).replace("[-1]", "[0]").replace("[-2]", "[0]").replace("[1]", "[0]") == f"{a}.shape[0]":
                 tgt = st.targets[0].id if isinstance(st.targets[0], ast.Name) else None
                 if tgt is None or root(tgt) != root(x.id):
